@@ -278,12 +278,15 @@ def evaluate__translate(self: XPathFunction, context: ta.ContextType = None) -> 
 
     arg: str = self.get_argument(context, default='', cls=str)
 
-    map_string: str = self.get_argument(context, index=1, cls=str)
+    # XPath 1.0: an empty node-set is converted to the empty string
+    default = '' if self.parser.version == '1.0' else None
+
+    map_string: str = self.get_argument(context, index=1, default=default, cls=str)
     if map_string is None:
         message = "the 2nd argument of fn:translate() cannot be the empty sequence"
         raise self.error('XPTY0004', message)
 
-    trans_string: str = self.get_argument(context, index=2, cls=str)
+    trans_string: str = self.get_argument(context, index=2, default=default, cls=str)
     if trans_string is None:
         message = "the 3rd argument of fn:translate() cannot be the empty sequence"
         raise self.error('XPTY0004', message)
